@@ -13,6 +13,17 @@ From Coq Require Import ZArith List Bool Lia Sorted Permutation.
 From DC Require Import DCPrelude DCPreludeFacts Val DiskBase SqlBase Gen_Disk Disk Gen_Sql Cache Refs
   TableFacts TableRows SqlBridge ExpiryFacts DiskFacts SortFacts SqlOrderFacts SinvFacts.
 
+(* ================================================================== bridge lemmas *)
+(* incr's UPDATE, on the row it addresses: new value, everything a lookup reports is kept *)
+Lemma bridge_incr_update_fields p now v r :
+  let r' := incr_update p now v (rowid r) r in
+  expire_time r' = expire_time r /\ rtag r' = rtag r /\ rmode r' = rmode r /\ rvalue r' = v.
+Proof.
+  unfold incr_update. destruct p;
+    unfold incr_update_plain_where, incr_update_PLRU_where, incr_update_PLFU_where, tvz_eq; rewrite Z.eqb_refl; cbn [truthy];
+    repeat split.
+Qed.
+
 (* ================================================================== list helpers *)
 Lemma filter_andb {A} (p q : A -> bool) l : filter (fun x => p x && q x) l = filter q (filter p l).
 Proof.
@@ -644,11 +655,7 @@ Proof.
   assert (Kf := bridge_incr_update_keeps_file (c_policy c) now (SInt (z + d)) (rowid r0) r0). fold f in Kf.
   assert (Mr : key_match dbk (b2z raw) (f r0) = true).
   { rewrite (key_match_cols _ _ (f r0) r0); [exact M0|apply Ki|apply Ki]. }
-  assert (Fields : expire_time (f r0) = expire_time r0 /\ rtag (f r0) = rtag r0 /\ rmode (f r0) = rmode r0 /\ rvalue (f r0) = SInt (z + d)).
-  { unfold f, incr_update. destruct (c_policy c);
-      unfold incr_update_plain_where, incr_update_PLRU_where, incr_update_PLFU_where, tvz_eq; rewrite Z.eqb_refl; cbn [truthy];
-      repeat split. }
-  destruct Fields as [Fe [Ft [Fm Fv]]].
+  destruct (bridge_incr_update_fields (c_policy c) now (SInt (z + d)) r0) as [Fe [Ft [Fm Fv]]]. fold f in Fe, Ft, Fm, Fv.
   rewrite (get_by_view _ _ _ _ _ _ _ P). unfold kview.
   rewrite (filter_unique (key_match dbk (b2z raw)) (rows s') (f r0)); [|apply rows_nodup, H'|exact Ir|exact Mr|].
   - unfold get_res. cbn [map filter fst snd]. unfold live_at. rewrite Fe. unfold live_at in L'. rewrite L'. cbn [fst snd].
@@ -687,12 +694,224 @@ Proof.
   rewrite Ee, Et in B. auto.
 Qed.
 
+(* ================================================================== (a) with the lazy cull enabled *)
+(* the cull of a write only deletes rows and leaves the file store alone *)
+Lemma cull_rows_fs c now pg s :
+  (forall r, In r (rows (fst (cull c now pg s))) -> In r (rows s)) /\ fs (fst (cull c now pg s)) = fs s.
+Proof.
+  assert (D : forall wh s0, (forall r, In r (rows (t_delete wh s0)) -> In r (rows s0)) /\ fs (t_delete wh s0) = fs s0).
+  { intros wh s0. split; [intros r; apply t_delete_in|apply fs_t_delete]. }
+  assert (Stage : forall s1 (cl1 : list (option Z)) lim,
+    let x := (if cull_skip_policy (if policy_has_cull (c_policy c) then Some tt else None) (volume pg s1) (c_size_limit c)
+              then (s1, cl1)
+              else let pr := policy_cull_select (c_policy c) lim (rows s1) in
+                   if is_nil pr then (s1, cl1)
+                   else (t_delete (policy_cull_delete (c_policy c) lim (rows s1)) s1, cl1 ++ map rfile pr)) in
+    (forall r, In r (rows (fst x)) -> In r (rows s1)) /\ fs (fst x) = fs s1).
+  { intros s1 cl1 lim. cbv zeta. destruct (cull_skip_policy _ _ _); [split; auto|].
+    destruct (is_nil _); [split; auto|]. apply D. }
+  unfold cull. destruct (cull_disabled _); [split; auto|].
+  destruct (negb (is_nil (cull_expired_select now (c_cull_limit c) (rows s)))); cbv beta iota zeta.
+  - destruct (D (cull_expired_delete now (c_cull_limit c) (rows s)) s) as [A B].
+    destruct (cull_exhausted _); [split; auto|].
+    destruct (Stage (t_delete (cull_expired_delete now (c_cull_limit c) (rows s)) s)
+        (map rfile (cull_expired_select now (c_cull_limit c) (rows s)))
+        (c_cull_limit c - Z.of_nat (length (cull_expired_select now (c_cull_limit c) (rows s))))) as [A' B'].
+    split; [intros r I; exact (A _ (A' _ I))|exact (eq_trans B' B)].
+  - apply Stage.
+Qed.
+
+Lemma finish_unref c now pg s2 P cl :
+  Pinv s2 P -> (forall g, In (Some g) cl -> ~ In g (refs s2)) ->
+  forall g, In (Some g) (cl ++ snd (cull c now pg s2)) -> ~ In g (refs (fst (cull c now pg s2))).
+Proof.
+  intros H2 Hcl g I. destruct (cull c now pg s2) as [s3 cl2] eqn:C. cbn [fst snd] in *.
+  destruct (pinv_cull c now pg s2 _ s3 cl2 C H2) as [_ [Pm _]].
+  apply in_app_or in I as [I|I].
+  - intros I'. apply (Hcl g I). eapply Permutation_in; [apply Permutation_sym, Pm|]. apply in_or_app. left. exact I'.
+  - eapply perm_split_disj; [apply (w_refs_nd s2), H2|exact Pm|]. apply in_somes, I.
+Qed.
+
+Lemma all_same_nodup {A} (l : list A) x : NoDup l -> (forall y, In y l -> y = x) -> l = [] \/ l = [x].
+Proof.
+  intros N H. destruct l as [|a [|b t]]; [left; reflexivity|right; rewrite (H a (or_introl eq_refl)); reflexivity|].
+  exfalso. inversion N as [|? ? Na _]; subst. apply Na. left.
+  rewrite (H a (or_introl eq_refl)), (H b (or_intror (or_introl eq_refl))). reflexivity.
+Qed.
+
+(* after the upsert the key has exactly one row r'; the cull either keeps it (with its file) or deletes it *)
+Lemma view_tail c now pg s2 P cl l k z r' oc :
+  Pinv s2 P -> sv_wf k = true -> In r' (rows s2) -> key_match k z r' = true -> fs_lookup s2 (rfile r') = oc ->
+  (forall g, In (Some g) cl -> ~ In g (refs s2)) ->
+  incl l (cl ++ snd (cull c now pg s2)) ->
+  let s' := fs_remove (fst (cull c now pg s2)) l in
+  kview s' k z = [(r', oc)] \/ kview s' k z = [].
+Proof.
+  intros H2 Wk I2 M2 Lk Hcl Hl s'.
+  destruct (cull_rows_fs c now pg s2) as [Sub Fs3].
+  pose proof (finish_unref c now pg s2 P cl H2 Hcl) as Un.
+  assert (H3 : Winv (fst (cull c now pg s2))).
+  { destruct (cull c now pg s2) as [s3 cl2] eqn:C. eapply pinv_winv. apply (pinv_cull c now pg s2 _ s3 cl2 C H2). }
+  set (s3 := fst (cull c now pg s2)) in *. set (cl2 := snd (cull c now pg s2)) in *.
+  assert (U : forall y, In y (filter (key_match k z) (rows s3)) -> y = r').
+  { intros y Iy. apply filter_In in Iy as [Iy My]. eapply (lookup_unique (rows s2)); eauto; apply H2. }
+  unfold kview, s'. rewrite rows_fs_remove.
+  destruct (all_same_nodup _ r' (NoDup_filter _ (rows_nodup s3 (w_rowids s3 H3))) U) as [E|E]; rewrite E; [right; reflexivity|left].
+  cbn [map]. f_equal. f_equal. rewrite <- Lk. unfold fs_lookup. destruct (rfile r') as [g|] eqn:Ef; [|reflexivity].
+  rewrite fs_get_fs_remove; [rewrite Fs3; reflexivity|]. intros I. apply (Un g (Hl _ I)).
+  apply in_frefs. exists r'. split; [|exact Ef].
+  assert (Ir : In r' (filter (key_match k z) (rows s3))) by (rewrite E; left; reflexivity).
+  apply filter_In in Ir. apply Ir.
+Qed.
+
+Lemma view_after_set_cull c s k v rd e tag now pg dbk raw sd :
+  Sinv s -> key_domain k = true -> put (c_codec c) k = PutOk dbk raw ->
+  store (c_codec c) (c_min_file_size c) v rd = StOk sd ->
+  (exists r', kview (fst (op_set c s k v rd e tag now pg)) dbk (b2z raw) = [(r', s_file sd)] /\
+              expire_time r' = expire_at now e /\ rtag r' = tag /\ rmode r' = s_mode sd /\ rvalue r' = s_col sd) \/
+  kview (fst (op_set c s k v rd e tag now pg)) dbk (b2z raw) = [].
+Proof.
+  intros H Dk P St. unfold op_set. rewrite P, St.
+  destruct (fs_write s (s_file sd)) as [s1 fid] eqn:Wr.
+  destruct (write_phase c s sd v rd s1 fid H St Wr) as [H1 [R1 Fok]].
+  destruct (pinv_fs_write s _ (s_file sd) s1 fid Wr (proj1 (sinv_pinv s) H)) as [_ [_ [_ [Lk _]]]].
+  pose proof (put_nonnull _ _ _ _ Dk P) as Nn. pose proof (put_wf _ _ _ _ P) as Wk.
+  rewrite bridge_set_select, R1.
+  destruct (filter (key_match dbk (b2z raw)) (rows s)) as [|r0 rs] eqn:F; cbv beta iota zeta.
+  - assert (Hk : forall r, In r (rows s1) -> key_match dbk (b2z raw) r = false).
+    { rewrite R1. intros r I. eapply filter_nil_none; eauto. }
+    destruct (pinv_columns_insert s1 _ dbk raw now (expire_at now e) tag sd fid H1 Hk Wk Fok) as [H2 [_ [E2 _]]].
+    set (n := columns_insert dbk raw now (expire_at now e) tag sd fid (next_rowid (rows s1))) in *.
+    set (s2 := t_insert (columns_insert dbk raw now (expire_at now e) tag sd fid) s1) in *.
+    pose proof (view_tail c now pg s2 _ [] ([] ++ snd (cull c now pg s2)) dbk (b2z raw) n (s_file sd) H2 Wk) as T. cbv zeta in T.
+    destruct (cull c now pg s2) as [s3 cl2] eqn:C. cbn [fst snd] in *.
+    destruct T as [T|T]; [rewrite E2; apply in_or_app; right; left; reflexivity
+                         |apply key_match_self; auto|exact Lk|intros g []|apply incl_refl| |right; exact T].
+    left. exists n. split; [exact T|repeat split].
+  - apply filter_cons_in in F as [I0 M0].
+    assert (I1 : In r0 (rows s1)) by (rewrite R1; exact I0).
+    destruct (pinv_columns_update s1 _ r0 now (expire_at now e) tag sd fid H1 I1 Fok) as [H2 [_ [Fs2 [_ [Nr [a [b [_ [E2 _]]]]]]]]].
+    set (f := row_update_set now (expire_at now e) now 0 tag (s_size sd) (s_mode sd) fid (s_col sd) (rowid r0)) in *.
+    set (s2 := columns_update (rowid r0) now (expire_at now e) tag sd fid s1) in *.
+    pose proof (view_tail c now pg s2 _ [rfile r0] ([rfile r0] ++ snd (cull c now pg s2)) dbk (b2z raw) (f r0) (s_file sd) H2 Wk) as T. cbv zeta in T.
+    destruct (cull c now pg s2) as [s3 cl2] eqn:C. cbn [fst snd] in *.
+    destruct T as [T|T]; [rewrite E2; apply in_or_app; right; left; reflexivity
+                         |rewrite (key_match_cols _ _ (f r0) r0); [exact M0|reflexivity|reflexivity]
+                         |change (rfile (f r0)) with fid; rewrite <- Lk; apply fs_lookup_ext, Fs2
+                         |intros g [E|[]]; apply Nr; auto|apply incl_refl| |right; exact T].
+    left. exists (f r0). split; [exact T|repeat split].
+Qed.
+
+(* (a), general: after set k v, get k returns v (expiry now+ttl, the tag) -- or the lazy cull of that very
+   write removed the item (a tiny size limit, or a ttl that is already over), and then k is absent *)
+Theorem get_after_set_cull c s k v rd e tag now pg now' :
+  Sinv s -> codec_ok (c_codec c) -> key_domain k = true -> shape_ok v rd = true ->
+  snd (op_set c s k v rd e tag now pg) = RBool true ->
+  live_opt now' (expire_at now e) = true ->
+  let s' := fst (op_set c s k v rd e tag now pg) in
+  (snd (op_get c s' k false now') = RVal (FVal (expected v)) (expire_at now e) tag /\
+   snd (op_contains c s' k now') = RBool true) \/
+  (forall rd' now'', snd (op_get c s' k rd' now'') = RDefault /\ snd (op_contains c s' k now'') = RBool false).
+Proof.
+  intros H Hc Dk Hs Ok L s'.
+  assert (Inv : exists dbk raw sd, put (c_codec c) k = PutOk dbk raw /\ store (c_codec c) (c_min_file_size c) v rd = StOk sd).
+  { unfold op_set in Ok. destruct (put _ k) as [dbk raw|]; [|discriminate].
+    destruct (store _ _ v rd) as [sd|]; [|discriminate]. eauto. }
+  destruct Inv as [dbk [raw [sd [P St]]]].
+  destruct (view_after_set_cull c s k v rd e tag now pg dbk raw sd H Dk P St) as [[r' [V [Ee [Et [Em Ev]]]]]|V]; fold s' in V.
+  - left. rewrite (get_by_view _ _ _ _ _ _ _ P), (contains_by_view _ _ _ _ _ _ P), V.
+    unfold get_res, contains_res. cbn [filter fst snd]. unfold live_at. rewrite Ee, L. cbn [fst snd is_nil negb].
+    rewrite Em, Ev, Ee, Et. destruct (store_fetch_roundtrip _ _ _ _ _ Hc Hs St) as [F _]. rewrite F. auto.
+  - right. apply (absent_view c s' k dbk raw P V).
+Qed.
+
+(* ================================================================== (b) with the lazy cull enabled *)
+(* whatever the key: the cull keeps its view or empties it *)
+Lemma view_tail_any c now pg s2 P cl l k z :
+  Pinv s2 P -> sv_wf k = true -> (forall g, In (Some g) cl -> ~ In g (refs s2)) ->
+  incl l (cl ++ snd (cull c now pg s2)) ->
+  let s' := fs_remove (fst (cull c now pg s2)) l in
+  kview s' k z = kview s2 k z \/ kview s' k z = [].
+Proof.
+  intros H2 Wk Hcl Hl s'. destruct (filter (key_match k z) (rows s2)) as [|r' rs] eqn:F.
+  - right. unfold kview, s'. rewrite rows_fs_remove, (filter_none (key_match k z)); [reflexivity|].
+    intros x Ix. apply (proj1 (cull_rows_fs c now pg s2)) in Ix. eapply filter_nil_none; eauto.
+  - pose proof F as F0. apply filter_cons_in in F0 as [I M].
+    destruct (view_tail c now pg s2 P cl l k z r' _ H2 Wk I M eq_refl Hcl Hl) as [T|T]; [left|right; exact T].
+    fold s' in T. rewrite T. unfold kview.
+    rewrite (filter_unique (key_match k z) (rows s2) r'); [reflexivity|apply rows_nodup, H2|exact I|exact M|].
+    intros y Iy My. eapply (lookup_unique (rows s2)); eauto; apply H2.
+Qed.
+
+Definition same_or_gone (c : cfg) (s s' : st) (k : pyval) : Prop :=
+  forall dbk raw, put (c_codec c) k = PutOk dbk raw ->
+    kview s' dbk (b2z raw) = kview s dbk (b2z raw) \/ kview s' dbk (b2z raw) = [].
+
+Lemma same_or_gone_lookups c s s' k : same_or_gone c s s' k ->
+  (forall rd now, snd (op_get c s' k rd now) = snd (op_get c s k rd now) /\
+                  snd (op_contains c s' k now) = snd (op_contains c s k now)) \/
+  (forall rd now, snd (op_get c s' k rd now) = RDefault /\ snd (op_contains c s' k now) = RBool false).
+Proof.
+  intros V. destruct (put (c_codec c) k) as [dbk raw|] eqn:P.
+  - destruct (V _ _ P) as [E|E].
+    + left. intros rd now. rewrite !(get_by_view _ _ _ _ _ _ _ P), !(contains_by_view _ _ _ _ _ _ P), E. auto.
+    + right. apply (absent_view c s' k dbk raw P E).
+  - left. intros rd now. unfold op_get, op_contains. rewrite P. auto.
+Qed.
+
+Section OtherCull.
+  Variables (c : cfg) (k1 k2 : pyval).
+  Hypothesis Hother : other_key c k1 k2.
+
+  Lemma set_frame_cull s v rd e tag now pg : Sinv s -> same_or_gone c s (fst (op_set c s k1 v rd e tag now pg)) k2.
+  Proof.
+    intros H dbk2 raw2 P2. unfold op_set. destruct (put (c_codec c) k1) as [dbk1 raw1|] eqn:P1; [|left; reflexivity].
+    pose proof (other_db_same c k1 k2 _ _ _ _ Hother P1 P2) as D. pose proof (put_wf _ _ _ _ P2) as Wk.
+    destruct (store _ _ v rd) as [sd|] eqn:St; [|left; reflexivity].
+    destruct (fs_write s (s_file sd)) as [s1 fid] eqn:Wr.
+    destruct (write_phase c s sd v rd s1 fid H St Wr) as [H1 [R1 Fok]].
+    rewrite bridge_set_select, R1.
+    destruct (filter (key_match dbk1 (b2z raw1)) (rows s)) as [|r0 rs] eqn:F; cbv beta iota zeta.
+    - assert (Hk : forall r, In r (rows s1) -> key_match dbk1 (b2z raw1) r = false).
+      { rewrite R1. intros r I. eapply filter_nil_none; eauto. }
+      destruct (pinv_columns_insert s1 _ dbk1 raw1 now (expire_at now e) tag sd fid H1 Hk (put_wf _ _ _ _ P1) Fok) as [H2 _].
+      set (s2 := t_insert (columns_insert dbk1 raw1 now (expire_at now e) tag sd fid) s1) in *.
+      pose proof (view_tail_any c now pg s2 _ [] ([] ++ snd (cull c now pg s2)) dbk2 (b2z raw2) H2 Wk) as T. cbv zeta in T.
+      destruct (cull c now pg s2) as [s3 cl2] eqn:C. cbn [fst snd] in *.
+      destruct T as [T|T]; [intros g []|apply incl_refl| |right; exact T]. left. rewrite T.
+      unfold s2. rewrite frame_insert; [eapply frame_write; [exact Wr|apply H]|]. eapply db_same_false_row; eauto.
+    - apply filter_cons_in in F as [I0 M0].
+      assert (I1 : In r0 (rows s1)) by (rewrite R1; exact I0).
+      destruct (pinv_columns_update s1 _ r0 now (expire_at now e) tag sd fid H1 I1 Fok) as [H2 [_ [_ [_ [Nr _]]]]].
+      set (s2 := columns_update (rowid r0) now (expire_at now e) tag sd fid s1) in *.
+      pose proof (view_tail_any c now pg s2 _ [rfile r0] ([rfile r0] ++ snd (cull c now pg s2)) dbk2 (b2z raw2) H2 Wk) as T. cbv zeta in T.
+      destruct (cull c now pg s2) as [s3 cl2] eqn:C. cbn [fst snd] in *.
+      destruct T as [T|T]; [intros g [E|[]]; apply Nr; auto|apply incl_refl| |right; exact T]. left. rewrite T.
+      unfold s2, columns_update. rewrite (frame_update s1 _ _ r0); [eapply frame_write; [exact Wr|apply H]|apply H1|exact I1| | |].
+      + intros r. apply bridge_row_update_where.
+      + apply bridge_row_update_keeps_id.
+      + eapply other_key_row; eauto. apply H, I0.
+  Qed.
+
+  (* (b), general: an operation on k1 leaves what get / contains report for k2 alone -- unless the lazy cull
+     of that write removed k2's item (expired, or evicted by the policy), and then k2 is absent *)
+  Theorem no_shadowing_cull s v rd e tag now pg :
+    Sinv s ->
+    let s' := fst (op_set c s k1 v rd e tag now pg) in
+    (forall rd' now', snd (op_get c s' k2 rd' now') = snd (op_get c s k2 rd' now') /\
+                      snd (op_contains c s' k2 now') = snd (op_contains c s k2 now')) \/
+    (forall rd' now', snd (op_get c s' k2 rd' now') = RDefault /\ snd (op_contains c s' k2 now') = RBool false).
+  Proof. intros H s'. apply same_or_gone_lookups, set_frame_cull, H. Qed.
+End OtherCull.
+
 (* ================================================================== len *)
 Theorem len_counts_rows s : Sinv s -> snd (op_len s) = RInt (Z.of_nat (length (rows s))).
 Proof. intros [W _]. destruct (w_counters s W) as [C _]. unfold op_len. cbn. rewrite C. reflexivity. Qed.
 
 Print Assumptions no_shadowing.
+Print Assumptions no_shadowing_cull.
 Print Assumptions get_after_set.
+Print Assumptions get_after_set_cull.
 Print Assumptions absent_after_delete.
 Print Assumptions absent_after_pop.
 Print Assumptions add_is_set.
